@@ -54,3 +54,18 @@ Example C07_nonvacuous :
   template_keys m = ["beta"; "utility"; "next_h"; "shocks"] /\
   shock_shape m "h" = Some [3; 2; 2; 2]%nat.
 Proof. vm_compute. repeat split. Qed.
+
+(* ---- about the regenerated template construction (Gen/ParamsTemplateGen.v) ---------------------- *)
+From LCM Require Import Gen.ParamsTemplateGen Proofs.C07_TemplateGen.
+(* _create_function_params computes, for every function in declaration order, exactly the entry    *)
+(* characterised above; the dimensions computed in _create_stochastic_transition_params are the      *)
+(* shape characterised above                                                                          *)
+Theorem C07_code_function_entries : forall m,
+  gen_function_params m = map (fun f => (fname f, function_params m f)) (functions m).
+Proof. exact gen_function_params_is_model. Qed.
+Print Assumptions C07_code_function_entries.
+
+Theorem C07_code_shock_dimensions : forall m s f,
+  find_fun m ("next_" ++ s) = Some f -> gen_shock_dimensions m s (fargs f) = shock_shape m s.
+Proof. exact gen_shock_dimensions_is_model. Qed.
+Print Assumptions C07_code_shock_dimensions.
